@@ -33,5 +33,10 @@ TStep ==
      /\ Chk("one_uniform_draw_explains_all_decisions", FLe(uLo', uHi'))
   /\ Step
 
-TNext == TStep
+TRaised ==
+  /\ IsEvent("mh_raised") /\ UNCHANGED <<uLo, uHi>>
+  /\ Chk("step_on_a_block_of_fields_the_state_has_does_not_raise", FALSE)
+  /\ Step
+
+TNext == TStep \/ TRaised
 =============================================================================
